@@ -1,0 +1,37 @@
+//go:build verif
+
+// Contracts for govc (contract-based deductive verification); comments only.
+package queue_info
+
+// c is listed in q.ChildQueues
+//@ define isChild(q *QueueInfo, c common_info.QueueID) bool = exists i int :: 0 <= i && i < len(q.ChildQueues) && q.ChildQueues[i] == c
+
+// C10 (queue graph): the child list of a queue is a set of ids; adding an id keeps every other
+// member and adds nothing else (the id is appended iff it was not listed yet). Touches nothing but
+// q.ChildQueues.
+//@ func (*QueueInfo).AddChildQueue
+//@   props C10
+//@   requires q != nil
+//@   modifies q.ChildQueues
+//@   ensures [prefixKept] len(q.ChildQueues) >= old(len(q.ChildQueues)) && (forall i int :: 0 <= i && i < old(len(q.ChildQueues)) ==> q.ChildQueues[i] == old(q.ChildQueues[i]))
+//@   ensures [addedOnce] ite(old(isChild(q, queue)), len(q.ChildQueues) == old(len(q.ChildQueues)), len(q.ChildQueues) == old(len(q.ChildQueues)) + 1 && q.ChildQueues[old(len(q.ChildQueues))] == queue)
+//@ end
+
+//@ func (*QueueInfo).IsLeafQueue
+//@   props C10
+//@   requires q != nil
+//@   pure
+//@   ensures result == (len(q.ChildQueues) == 0)
+//@ end
+
+// C10 (queue graph, constructor): the snapshot entry of a Queue object carries the object's name as
+// UID, the spec's parentQueue verbatim (no validation: "" = top level, anything else is looked up
+// later) and an empty, non-nil child list.
+//@ func NewQueueInfo
+//@   props C10
+//@   requires queue != nil
+//@   fresh
+//@   ensures [identity] result != nil && result.UID == queue.Name && result.ParentQueue == queue.Spec.ParentQueue
+//@   ensures [noChildrenYet] len(result.ChildQueues) == 0
+//@   ensures [name] result.Name == ite(queue.Spec.DisplayName != "", queue.Spec.DisplayName, queue.Name)
+//@ end
